@@ -103,7 +103,7 @@ def check_group(ctx, it):
                 ctx.ob("R09.1", key + "/total base", base_ok, detail=why, sites=[t.site], sample={"base": show(base)[:120]})
                 in_chain = set(lk for lk, _, _ in chain)
                 for e in mw:
-                    n_mw.add((e.site[1], e.op))
+                    n_mw.add(e.op)
                     if not e.loops or e.loops[-1] not in in_chain:
                         ctx.ob("R09.1", key + "/member write outside the totalling loops", False, sites=[e.site],
                                detail="MEMBERS %s is not inside a loop whose running total is saved to TOTAL" % e.op)
@@ -143,8 +143,8 @@ def check_group(ctx, it):
                            detail=prob or "running total changes by %s per iteration but the member writes of that iteration change the "
                                           "weights by %s" % (delta.show(), want.show()),
                            sample={"total_delta": delta.show(), "member_delta": want.show()})
-    ctx.floor("R09.1", "cw4-group MEMBERS write sites", len(n_mw), 3)
-    ctx.floor("R09.2", "cw4-group snapshot writes", n_h, 5)
+    ctx.floor("R09.1", "cw4-group MEMBERS write kinds (save/update/remove)", len(n_mw), 3)
+    ctx.floor("R09.2", "cw4-group snapshot writes", n_h, 3)
     # uniqueness validation itself: adjacent compare after sort (create and update_members share it)
     vb = "cw4_group::helpers::validate_unique_members"
     if ctx.ob("R09.1", "anchor:validate_unique_members", vb in ctx.facts.bodies, trivial=True, detail="validate_unique_members not found"):
@@ -218,7 +218,7 @@ def check_stake(ctx, it):
                             prob = "TOTAL changes by %s but the member's weight changes by %s" % (d.nf.show(), want.show())
                 ctx.ob("R09.1", key + "/members+total", prob is None, detail=prob, sites=[e.site for _, e in mw + tw],
                        sample={"paired": True})
-    ctx.floor("R09.1", "cw4-stake membership-changing paths", n_pair, 4)
+    ctx.floor("R09.1", "cw4-stake membership-changing paths", n_pair, 2)
 
 
 def check_queries(ctx, it):
